@@ -63,6 +63,10 @@ var hookURLs = [2]string{"http://hook-one.example/cb", "http://hook-two.example/
 const hookToken = "s3cr3t"
 const customHeader = "X-Api-Key"
 
+// a second custom header name and secret, for the runs with two webhooks
+const customHeader2 = "X-Second-Key"
+const hookToken2 = "0th3r"
+
 // ---- scripted client ----------------------------------------------------------------------
 
 type call struct {
@@ -167,6 +171,8 @@ func authBody(u, auth string) []byte {
 		ra = map[string]string{"type": "bearer", "token": hookToken}
 	case "custom":
 		ra = map[string]string{"type": "custom_header", "token": hookToken, "header": customHeader}
+	case "custom2":
+		ra = map[string]string{"type": "custom_header", "token": hookToken2, "header": customHeader2}
 	}
 	b, _ := json.Marshal(map[string]any{"url": u, "requiredAuth": ra})
 	return b
@@ -522,34 +528,43 @@ func modelOnly(max int, hist []wop) (struct{}, wmodel) {
 
 type recvd struct {
 	Method, Path, Auth, Custom, CT, Body string
-	Other                                []string // header names outside the transport's standard set
+	Custom2                              string
+	Secrets                              []string // other headers whose value is one of the configured secrets
 }
 
-// stdHeaders are what Go's HTTP transport and the JSON client add on their own.
-var stdHeaders = map[string]bool{"Authorization": true, customHeader: true, "Content-Type": true, "Content-Length": true, "User-Agent": true, "Accept-Encoding": true, "Accept": true}
-
-func otherHeaders(h http.Header) []string {
+// secretElsewhere lists headers, other than the three authorisation headers the webhooks of a
+// run are configured with, that carry one of the secrets.
+func secretElsewhere(h http.Header) []string {
 	var out []string
-	for k := range h {
-		if !stdHeaders[k] {
-			out = append(out, k)
+	for k, vs := range h {
+		if k == "Authorization" || k == customHeader || k == customHeader2 {
+			continue
+		}
+		for _, v := range vs {
+			if strings.Contains(v, hookToken) || strings.Contains(v, hookToken2) {
+				out = append(out, k)
+			}
 		}
 	}
 	sort.Strings(out)
 	return out
 }
 
+// authOK: of the authorisation headers configured for any webhook of the run, exactly the
+// webhook's own arrives (headers that have nothing to do with authorisation are not judged).
 func authOK(auth string, c recvd) bool {
-	if len(c.Other) > 0 {
+	if len(c.Secrets) > 0 {
 		return false
 	}
 	switch auth {
 	case "bearer":
-		return c.Auth == "Bearer "+hookToken && c.Custom == ""
+		return c.Auth == "Bearer "+hookToken && c.Custom == "" && c.Custom2 == ""
 	case "custom":
-		return c.Custom == hookToken && c.Auth == ""
+		return c.Custom == hookToken && c.Auth == "" && c.Custom2 == ""
+	case "custom2":
+		return c.Custom2 == hookToken2 && c.Auth == "" && c.Custom == ""
 	}
-	return c.Auth == "" && c.Custom == ""
+	return c.Auth == "" && c.Custom == "" && c.Custom2 == ""
 }
 
 func prodClientRuns(env core.Env, rep *core.Report, job *int) {
@@ -559,7 +574,7 @@ func prodClientRuns(env core.Env, rep *core.Report, job *int) {
 	srv := httptest.NewServer(http.HandlerFunc(func(w http.ResponseWriter, r *http.Request) {
 		b, _ := io.ReadAll(r.Body)
 		mu.Lock()
-		got = append(got, recvd{r.Method, r.URL.Path, r.Header.Get("Authorization"), r.Header.Get(customHeader), r.Header.Get("Content-Type"), string(b), otherHeaders(r.Header)})
+		got = append(got, recvd{r.Method, r.URL.Path, r.Header.Get("Authorization"), r.Header.Get(customHeader), r.Header.Get("Content-Type"), string(b), r.Header.Get(customHeader2), secretElsewhere(r.Header)})
 		oc := outcome
 		mu.Unlock()
 		switch oc {
@@ -659,7 +674,7 @@ func prodClientRuns(env core.Env, rep *core.Report, job *int) {
 	if !env.Mine(*job) {
 		return
 	}
-	kinds := []string{"bearer", "custom", "none"}
+	kinds := []string{"bearer", "custom", "custom2", "none"}
 	for _, a0 := range kinds {
 		for _, a1 := range kinds {
 			for _, shape := range []string{"both", "first-deleted", "first-deactivated"} {
